@@ -3,6 +3,7 @@ import ComposeVerif.Props.C02Deep
 import ComposeVerif.Props.C02Stages
 import ComposeVerif.Lemmas.C02StageDefaultsWF
 import ComposeVerif.Lemmas.C02StagePathsWF
+import ComposeVerif.Lemmas.C02WholeOmit
 /-!
 # C02 — the composed pipeline (`Model/Pipeline.lean`: `Pipeline.load`) and the order of map entries
 
@@ -39,9 +40,6 @@ def optO {α : Type} : Pipeline.Out α → Option α
 
 /-- two outcomes are the same observation up to `R` -/
 def Same {α : Type} (R : α → α → Prop) (x y : Pipeline.Out α) : Prop := ORel R (optO x) (optO y)
-
-/-- two spellings of one tree, both with distinct keys everywhere -/
-def EW (v w : Val) : Prop := Eqv v w ∧ WF v ∧ WF w
 
 theorem EW.map_iff {a b : KVs} : EW (.map a) (.map b) ↔ MRel a b := by
   simp only [EW, MRel, Eqv.map_iff, WF.map_iff]
@@ -282,7 +280,6 @@ structure Residual (c c' : Cfg) : Prop where
   for the model as it is (`Neg.Whole.schema_model_reads_key_order`) — a sorted `jsonKey` is what the model needs -/
   schema : c.opts.skipValidation = false → RespectsV (schemaStage c.opts)
   canonical : RespectsV (fun d => ofShort (Short.canonical c.opts.skipInterpolation d))
-  omitEmpty : RespectsV (omitEmpty c.omitPats)
   /-- `Normalize` with the two spellings of the environment (`normalize_stage_perm` covers the two mappings it ranges) -/
   normalize : ∀ a b, MRel a b →
     Same MEqv (ofC11 "normalize" (C11.normalize c.clean c.env a)) (ofC11 "normalize" (C11.normalize c'.clean c'.env b))
@@ -350,6 +347,19 @@ theorem schemaStage_same {c c' : Cfg} (R : Residual c c') : RespectsV (schemaSta
   | true => exact schemaStage_off _ h
   | false => exact R.schema h
 
+/-- **`loader.OmitEmpty` as run by the pipeline** (a whole tree walk that drops empty values at the `omitempty` paths):
+proved through the embedding into C01's `GoVal` model (`omit_ofVal`, `omitEmpty_eq`) and the loop lemma `fm_mrel` -/
+theorem omitEmpty_same (pats : List (List String)) : RespectsV (Pipeline.omitEmpty pats) := by
+  intro v w h
+  obtain ⟨he, wv, ww⟩ := h
+  cases he with
+  | map h1 h2 =>
+    rw [omitEmpty_eq, omitEmpty_eq]
+    have := omitV_ew pats (Eqv.map h1 h2) wv ww TPath.root
+    simp only [omitV] at this
+    exact this
+  | _ => simp only [Pipeline.omitEmpty, Same, optO, ORel]
+
 /-! ## the composition -/
 
 /-- `processRawYaml` from the merge on: six stages, error plumbing in between -/
@@ -360,7 +370,7 @@ theorem mergeStages_same {c c' : Cfg} (R : Residual c c') {d d' : Val} {a b : KV
   refine Same.bind (R.unicity "unicity" x y hxy) fun x y hxy => ?_
   refine Same.bind (schemaStage_same R x y hxy) fun x y hxy => ?_
   refine Same.bind (R.canonical x y hxy) fun x y hxy => ?_
-  refine Same.bind (R.omitEmpty x y hxy) fun x y hxy => ?_
+  refine Same.bind (omitEmpty_same c.omitPats x y hxy) fun x y hxy => ?_
   exact R.unicity "unicity2" x y hxy
 
 /-- one document merged into the model built so far -/
@@ -458,7 +468,7 @@ theorem processDocs_congr {c c' : Cfg} (hc : SameButEnv c c') : ∀ (docs : List
     | panic s => rfl
 
 /-- **`Pipeline.load` composed from its stages**: for every configuration, documents and spellings of the environment —
-with what is still assumed of five stages named in `Residual` -/
+with what is still assumed of four stages named in `Residual` -/
 theorem load_order_independent_partial {c c' : Cfg} (hc : SameButEnv c c') (hl : LookupSame c.env c'.env)
     (R : Residual c c') {docs docs' : List KVs} (h : DocsEqv docs docs') : Same MEqv (load c docs) (load c' docs') := by
   have hlen : docs.isEmpty = docs'.isEmpty := by cases h <;> rfl
